@@ -717,7 +717,7 @@ type clientDID struct {
 }
 
 func TestPipeline(t *testing.T) {
-	ev.Rule(chk, "rapid workloads over the whole pipeline made of real parts ((REST operations endpoint ->) DocumentHandler -> batch.Writer driven through the verif hook -> OperationHandler -> in-memory CAS -> recording ledger assigning time, non-monotone number, canonical and equivalent references -> Observer -> TxnProcessor -> operation store -> OperationProcessor -> didtransformer): 1-5 DIDs, 3-25 client operations (create / update / recover / deactivate with patch lists over all eight actions, all key types), drawn flush points (monitor / timeout ticks), maxOperationCount 1-4, operations submitted while an earlier one for the DID is still queued, one or two protocol versions (second one with sha2-512 first, fewer patch actions, later genesis time), with and without an unpublished-operation store, with and without two method contexts on the transformers, one node in three with a label / domain for interim DIDs and / or an alias namespace (resolutions then ask by turns for the plain DID, the DID under the alias and - long-form only - the DID with the label as hint; the DID string of an answer may be any spelling that names the suffix under the namespace or alias); every result the node hands out stays held (last 16) and must not change while later requests are served; oracle: every stored operation carries the protocol version that was in force when it was accepted; after every flush and at the end every DID resolves (ResolveDocument) to the kit/refdoc + reference prediction over its accepted operations in anchoring order (document projection, commitments, deactivated, published flag and canonical id once anchored); create response == long-form resolution before anchoring == short-form resolution after anchoring (modulo the DID string); non-trivial = a DID with >= 3 applied operations including a recover or deactivate, or an operation submitted while another is queued, or a version switch")
+	ev.Rule(chk, "rapid workloads over the whole pipeline made of real parts ((REST operations endpoint ->) DocumentHandler -> batch.Writer driven through the verif hook -> OperationHandler -> in-memory CAS -> recording ledger assigning time, non-monotone number, canonical and equivalent references -> Observer -> TxnProcessor -> operation store -> OperationProcessor -> didtransformer): 1-5 DIDs, 3-25 client operations (create / update / recover / deactivate with patch lists over all eight actions, all key types), drawn flush points (monitor / timeout ticks), maxOperationCount 1-4, operations submitted while an earlier one for the DID is still queued, signed anchoring windows (open, closed, and ending 0-3 ledger ticks after submission so that the flush point decides whether the operation lands inside, exactly at the end of or after its window), one or two protocol versions (second one with sha2-512 first, fewer patch actions, later genesis time), with and without an unpublished-operation store, with and without two method contexts on the transformers, one node in three with a label / domain for interim DIDs and / or an alias namespace (resolutions then ask by turns for the plain DID, the DID under the alias and - long-form only - the DID with the label as hint; the DID string of an answer may be any spelling that names the suffix under the namespace or alias); every result the node hands out stays held (last 16) and must not change while later requests are served; oracle: every stored operation carries the protocol version that was in force when it was accepted; after every flush and at the end every DID resolves (ResolveDocument) to the kit/refdoc + reference prediction over its accepted operations in anchoring order (document projection, commitments, deactivated, published flag and canonical id once anchored); create response == long-form resolution before anchoring == short-form resolution after anchoring (modulo the DID string); non-trivial = a DID with >= 3 applied operations including a recover or deactivate, or an operation submitted while another is queued, or a version switch")
 	ev.Rapid(t, chk, 200, 1500, func(t *rapid.T) {
 		c := &Case{Max: uint(rapid.IntRange(1, 4).Draw(t, "max")), TwoVersions: rapid.Bool().Draw(t, "twoVersions"), Unpublished: rapid.Bool().Draw(t, "unpublishedStore"), MethodContexts: rapid.Bool().Draw(t, "methodContexts"), ViaREST: rapid.Bool().Draw(t, "viaRest")}
 		if rapid.IntRange(0, 2).Draw(t, "handlerNaming") == 0 {
@@ -778,7 +778,18 @@ func TestPipeline(t *testing.T) {
 				s := &asm.Signed{Type: typ, Suffix: cl.suffix, Code: cl.code}
 				// one request in three signs an anchoring window: open on the ledger's clock; (1, 0) closes long before the
 				// wall-clock stamp a pending copy carries, the others stay open for it too
-				w := rapid.SampledFrom([][2]int64{{0, 0}, {0, 0}, {0, 0}, {0, 0}, {1, 0}, {1, 1 << 41}, {900, 1 << 41}}).Draw(t, "window")
+				w := rapid.SampledFrom([][2]int64{{0, 0}, {0, 0}, {0, 0}, {0, 0}, {1, 0}, {1, 1 << 41}, {900, 1 << 41}, {-1, -1}, {-2, -2}}).Draw(t, "window")
+				if w[0] < 0 {
+					// a window that closes at (or one / two / three ticks after) the ledger's current time: depending on the
+					// flush point the operation is anchored just inside, exactly at the end of, or just after its window
+					end := int64(p.ledger.clock) + int64(rapid.IntRange(0, 3).Draw(t, "windowEndsIn"))
+					if w[0] == -1 {
+						w = [2]int64{end - 5, end}
+					} else {
+						w = [2]int64{end - int64(wire.BaseProtocol().MaxOperationTimeDelta), 0} // anchorUntil defaulted
+					}
+					p.feat["window-ends-near-anchoring"] = true
+				}
 				s.From, s.Until = w[0], w[1]
 				a.From, a.Until = w[0], w[1]
 				switch typ {
